@@ -87,6 +87,51 @@ impl Flavor for FArc {
     }
 }
 
+impl Default for ArcBm {
+    fn default() -> Self {
+        ArcBm(Arc::new(AtomicBitmap::default()))
+    }
+}
+impl vm_memory::bitmap::NewBitmap for ArcBm {
+    fn with_len(len: usize) -> Self {
+        ArcBm(Arc::new(AtomicBitmap::with_len(len)))
+    }
+}
+
+/// Xen build: the bitmap is created by the region constructor (`B::with_len`, system page size);
+/// regions are Xen-UNIX mappings. Only flavours that implement NewBitmap can be used.
+#[cfg(feature = "xen")]
+trait XenMake: Flavor {
+    fn make_xen(start: u64, len: usize) -> Option<GuestRegionMmap<Self::B>>;
+}
+#[cfg(feature = "xen")]
+impl XenMake for FAtomic {
+    fn make_xen(start: u64, len: usize) -> Option<GuestRegionMmap<AtomicBitmap>> {
+        GuestRegionMmap::<AtomicBitmap>::from_range(GuestAddress(start), len, None).ok()
+    }
+}
+#[cfg(feature = "xen")]
+impl XenMake for FArc {
+    fn make_xen(start: u64, len: usize) -> Option<GuestRegionMmap<ArcBm>> {
+        GuestRegionMmap::<ArcBm>::from_range(GuestAddress(start), len, None).ok()
+    }
+}
+#[cfg(feature = "xen")]
+impl XenMake for FOption {
+    fn make_xen(_start: u64, _len: usize) -> Option<GuestRegionMmap<Option<AtomicBitmap>>> {
+        None // Option<B> has no NewBitmap impl: cannot be built through from_range
+    }
+}
+#[cfg(feature = "xen")]
+fn make_region<F: Flavor + XenMake>(start: u64, len: usize, _page: usize, _r: &mut Rng) -> GuestRegionMmap<F::B> {
+    F::make_xen(start, len).expect("xen-unix region")
+}
+
+#[cfg(not(feature = "xen"))]
+trait XenMake {}
+#[cfg(not(feature = "xen"))]
+impl<T> XenMake for T {}
+
 #[cfg(not(feature = "xen"))]
 fn make_region<F: Flavor>(start: u64, len: usize, page: usize, r: &mut Rng) -> GuestRegionMmap<F::B> {
     use vm_memory::mmap::MmapRegionBuilder;
@@ -955,8 +1000,7 @@ fn maintenance<F: Flavor>(w: &mut World, gm: &GuestMemoryMmap<F::B>, r: &mut Rng
     judge(w, gm, route, "bitmap", Kind::Maintenance, None);
 }
 
-#[cfg(not(feature = "xen"))]
-fn history<F: Flavor>(case: u64, args: &Args) {
+fn history<F: Flavor + XenMake>(case: u64, args: &Args) {
     let mut r = Rng::new(args.seed(), "c05", case);
     let nreg = 1 + r.usize_below(3);
     let first_len = match r.below(6) {
@@ -965,6 +1009,8 @@ fn history<F: Flavor>(case: u64, args: &Args) {
         2 if !cfg!(miri) => 4096 + r.usize_below(5000),
         _ => 1 + r.usize_below(if cfg!(miri) { 90 } else { 600 }),
     };
+    #[cfg(feature = "xen")]
+    let first_len = if first_len < 4096 && r.chance(1, 2) { 4096 * (1 + r.usize_below(3)) + r.usize_below(300) } else { first_len };
     let page = match r.below(14) {
         0 => 1,
         1 => 2,
@@ -980,6 +1026,12 @@ fn history<F: Flavor>(case: u64, args: &Args) {
         11 => first_len + 1,
         12 => 2 * first_len,
         _ => 1 + r.usize_below(40),
+    };
+    // Xen build: the page size is whatever NewBitmap::with_len chose (the system page size)
+    #[cfg(feature = "xen")]
+    let page = {
+        let _ = page;
+        4096usize
     };
     let mut start = *r.pick(&[0u64, 0x1000, 0x7fff_f000]);
     let mut regions = vec![];
@@ -1041,15 +1093,18 @@ fn history<F: Flavor>(case: u64, args: &Args) {
     }
 }
 
-#[cfg(feature = "xen")]
-fn history<F: Flavor>(_case: u64, _args: &Args) {}
-
 pub fn run(args: &Args) {
     out::set_quiet_cases(true);
     for case in args.cases(4000) {
+        #[cfg(not(feature = "xen"))]
         let res = guarded(|| match case % 3 {
             0 => history::<FAtomic>(case, args),
             1 => history::<FOption>(case, args),
+            _ => history::<FArc>(case, args),
+        });
+        #[cfg(feature = "xen")]
+        let res = guarded(|| match case % 2 {
+            0 => history::<FAtomic>(case, args),
             _ => history::<FArc>(case, args),
         });
         if let Err(p) = res {
